@@ -275,6 +275,8 @@ def r4_cli_wiring(c, facts):
 
 
 def run(c, facts):
+    import c13
+    c.run(lambda c: c13.r7_option_precedence(c, facts, rule='C14.R5'))
     c.run(r1_frame, facts)
     c.run(r2_base_flows, facts)
     c.run(r3_from_program, facts)
